@@ -176,6 +176,17 @@ static void h_op(void)
     free(dv); free(fv); free(iv); free(lv); free(f); free(dup);
     return;
   }
+  if (!strcmp(op, "abcinfo")) {   /* the alphabet facts the model hard-codes (K, Kp, gap characters, gap / nonresidue / missing codes), read from the real alphabet */
+    ESL_ALPHABET *abc = get_abc(); int c; char num[96]; char gaps[130]; int ng = 0;
+    for (c = 1; c < 128; c++) if (esl_abc_CIsGap(abc, c)) gaps[ng++] = (char) c;
+    ob_reset(); sprintf(num, "ok K=%d Kp=%d", abc->K, abc->Kp); ob_add(num);
+    ob_add(" gapchars="); ob_add(h_hex(gaps, ng));
+    ob_add(" xisgap=");
+    for (c = 0; c < abc->Kp; c++) ob_add(esl_abc_XIsGap(abc, c) ? "1" : "0");
+    sprintf(num, " gap=%d nonres=%d missing=%d", esl_abc_XGetGap(abc), esl_abc_XGetNonresidue(abc), esl_abc_XGetMissing(abc)); ob_add(num);
+    h_out("%s", ob);
+    return;
+  }
   if (!strcmp(op, "seed") || !strcmp(op, "seedfast")) {
     if (R) esl_randomness_Destroy(R);
     R = !strcmp(op, "seed") ? esl_randomness_Create((uint32_t) h_argu("s", 1)) : esl_randomness_CreateFast((uint32_t) h_argu("s", 1));
@@ -414,7 +425,7 @@ static void h_op(void)
   if (!strcmp(op, "permute")) {
     /* arrays: rows names wgt sqlen + optional acc desc ss sa pp gs gr (each "none" or nseq hex fields) */
     int dig = (int) h_argi("dig", 0); ESL_ALPHABET *abc = get_abc(); char **rows, *dup, **names, *ndup, **w, *wdup, **sl, *sldup;
-    int nseq = split_commas(h_arg("rows"), &rows, &dup); int64_t alen; ESL_MSA *msa; int i, k, idxok = 1;
+    int nseq = split_commas(h_arg("rows"), &rows, &dup); int64_t alen; ESL_MSA *msa; int i, k; char *idxs = NULL; size_t idxn = 0;
     static const char *optk[7] = { "acc", "desc", "ss", "sa", "pp", "gs", "gr" };
     char **of[7], *od[7];
     msa = mk_msa(dig, abc, rows, nseq, &alen);
@@ -474,11 +485,16 @@ static void h_op(void)
             ob_add("/"); if (msa->gs[tg][i]) ob_add(h_hex(msa->gs[tg][i], strlen(msa->gs[tg][i]))); else ob_add("~"); } }
         { int tg; for (tg = 0; tg < msa->ngr; tg++) if (!strcmp(msa->gr_tag[tg], "R2")) {
             ob_add("/"); if (msa->gr[tg][i]) ob_add(h_hex(msa->gr[tg][i], strlen(msa->gr[tg][i]))); else ob_add("~"); } }
-        if (msa->index && (esl_keyhash_Lookup(msa->index, msa->sqname[i], -1, &ki) != eslOK || ki != i)) idxok = 0;
+        if (msa->index) {      /* what the rebuilt index answers for the name of row i */
+          char num[24];
+          if (esl_keyhash_Lookup(msa->index, msa->sqname[i], -1, &ki) != eslOK) sprintf(num, "%sx", i ? "," : ""); else sprintf(num, "%s%d", i ? "," : "", ki);
+          idxs = realloc(idxs, idxn + strlen(num) + 1); strcpy(idxs + idxn, num); idxn += strlen(num);
+        }
       }
       if (nseq == 0) ob_add("-");
-      if (!h_argi("idx", 1) && msa->index != NULL) idxok = 0;          /* the routine must not invent an index */
-      ob_add(idxok ? " index=ok" : " index=BAD");
+      if (!h_argi("idx", 1)) ob_add(msa->index != NULL ? " index=INVENTED" : " index=none");     /* the routine must not invent an index */
+      else { ob_add(" index="); ob_add(nseq ? idxs : "-"); }
+      free(idxs);
       h_out("%s", ob);
     }
     for (k = 0; k < 7; k++) { free(of[k]); free(od[k]); }
